@@ -330,6 +330,7 @@ package compiler
 // option string, an error is returned only right after generator.ValidateOption said no, and it is said
 // about the name in front of the first '='.
 //@ func compiler.CleanGenParam(gen)
+//@   locals lang, options, err, s, dirty, optionArray, option, rangeindex, s
 //@   ensures result2 != nil ==> ncalls("generator.ValidateOption") >= 1
 //@   ensures result2 != nil ==> !lastcallret("generator.ValidateOption", 0)
 //@   modifies *
